@@ -301,6 +301,9 @@ def main(argv=None):
         rs, info = engine_f.run_pairs(prop, S, outdir)
         results += rs
         infos += info
+        rs, info = engine_f.run_builtins(prop, S, outdir)
+        results += rs
+        infos += info
     if "S" in engines:
         import engine_s
 
